@@ -7,6 +7,7 @@ flag swap / eventfd write / flag clear / dequeue steps, every batch limit ≥ 1)
 -/
 import Verif.Inv.ExecProto
 import Verif.Model.StreamSrc
+import Verif.Inv.ExecFifo
 
 namespace Verif.Props.C10
 open Verif.ExecProto Verif.Inv.ExecProto
@@ -297,3 +298,56 @@ example : (iter 3 { rest := [.item 4, .pending, .item 5, .item 6, .pending] }).o
 end Stream
 
 end Verif.Props.C10
+
+/-! ### the executor as a FIFO of runnables: single-threaded histories of schedule / complete / wake / dispatch / drop
+    (`Verif.ExecFifo`, tied to the real executor by the `slab` queries of `vh execcb`) -/
+namespace Verif.Props.C10.Fifo
+open Verif.ExecFifo Verif.Inv.ExecFifo
+
+/-- an output is delivered at most once, in every history (task ids name tasks: each is scheduled once) -/
+theorem delivered_at_most_once (ops : List Op) (hnd : (scheduledIds ops).Nodup) : (run ops).done.Nodup :=
+  (run_inv ops hnd).base.dnd
+
+/-- only outputs of tasks that were scheduled and have completed are delivered -/
+theorem delivered_only_completed (ops : List Op) (hnd : (scheduledIds ops).Nodup) :
+    ∀ i ∈ (run ops).done, i ∈ (run ops).flags ∧ i ∈ (run ops).sched :=
+  (run_inv ops hnd).base.df
+
+/-- no lost output: while the executor lives, every scheduled task that has completed — before or after its first
+    poll, woken once or many times — is delivered by the end of the next dispatch at the latest -/
+theorem completed_is_delivered_by_the_next_dispatch (ops : List Op) (hnd : (scheduledIds ops).Nodup)
+    (halive : (run ops).dead = false) :
+    ∀ i ∈ (run ops).sched, i ∈ (run ops).flags → i ∈ (step (run ops) .disp).done := by
+  intro i hs hf
+  have h := step_inv (run ops) .disp (run_inv ops hnd) (by intro j hj; cases hj)
+  have e : step (run ops) .disp =
+      { (run ops) with queued := [], done := (run ops).done ++ (run ops).queued.filter (fun i => (run ops).flags.contains i),
+                       polled := (run ops).polled ++ (run ops).queued.filter (fun i => !(run ops).flags.contains i),
+                       dropped := (run ops).dropped ++ (run ops).queued.filter (fun i => (run ops).flags.contains i) } := by
+    simp only [step]; rw [fold_poll]
+  have hl := h.live
+  rw [e] at hl ⊢
+  cases hl halive i hs with
+  | inl a => exact a
+  | inr a =>
+    cases a with
+    | inl a => cases a
+    | inr a => exact absurd hf a.2
+
+/-- a delivered future has been dropped -/
+theorem delivered_future_is_dropped (ops : List Op) (hnd : (scheduledIds ops).Nodup) :
+    ∀ i ∈ (run ops).done, i ∈ (run ops).dropped :=
+  (run_inv ops hnd).base.dd
+
+/-- once the executor has been dropped, every future it was ever given has been dropped — pending ones too, whoever
+    else holds their wakers -/
+theorem executor_drop_drops_every_future (ops : List Op) (hnd : (scheduledIds ops).Nodup) (hd : (run ops).dead = true) :
+    ∀ i ∈ (run ops).sched, i ∈ (run ops).dropped :=
+  ((run_inv ops hnd).base.deadq hd).2
+
+/-- non-vacuity: tasks complete out of scheduling order, one is woken without being complete, the executor goes with a
+    task pending -/
+example : let s := run [.sch 0, .sch 1, .sch 2, .disp, .cpl 1, .wk 2, .disp, .sch 3, .cpl 0, .cpl 3, .disp, .drop, .cpl 2, .disp]
+    s.done = [1, 3, 0] ∧ s.dead = true ∧ (List.range 4).all s.dropped.contains = true := by decide
+
+end Verif.Props.C10.Fifo
